@@ -7,6 +7,7 @@ R5 ValueSet::record / Span::record visit rules
 """
 import re
 from rulekit import Facts, where, proj_names
+from rulekit.query import iter_places as _iter_places
 from rulekit.sym import PathEval, show, canon
 from rulekit.query import option_test, recv_fields, closure_of_term
 from rules import fxlib
@@ -50,6 +51,8 @@ def run(ck):
     ck.rule("C10.R14", "`the collector` whose visitor sees the fields is the emitting thread's current one: get_default's path choice and the writers of the per-thread default (as C02.R2/R3)", floor=6)
     ck.rule("C10.R15", "a registered callsite stays reachable for every later re-evaluation: the lock-free list's push links to the head it observed, on every retry (as C04.R3)", floor=5)
     ck.rule("C10.R16", "the value set a macro built reaches the collector's visitor through Dispatch unchanged: new_span / record / event forward 1:1 (as C09.R4)", floor=3)
+    ck.rule("C10.R19", "a field key denotes one position of one callsite: keys are equal only with equal callsite *and* index, the set's iterator hands out "
+            "positions 0..len in order with the set's own names and callsite, lookup by name yields the position whose name matched", floor=5)
     ck.rule("C10.R18", "a key names a field of *this* span or nothing: a Field key is accepted only when it is from the span's own callsite "
             "(callsite identity compared, the key itself handed back), a string key only through the span's own field set", floor=3)
     ck.rule("C10.R17", "every way of making a Dispatch registers it with the callsite registry, so its collector is asked about every callsite and the max level covers it (as C01.R6)", floor=3)
@@ -101,6 +104,7 @@ def run(ck):
     from rules import C01 as _C01b
     _C01b.r6(ck, F, rid="C10.R17")
     as_field_rule(ck, F)
+    field_key_rule(ck, F)
     from rules import C09 as _C09x
     _C09x.dispatch_forwarding(ck, F, rid="C10.R16", only={"new_span", "record", "enabled"})
     C02.r2(ck, F, rid="C10.R14")
@@ -388,6 +392,85 @@ def r2(ck, FX, body, fname, exp, rid="C10.R2"):
 
 
 # ------------------------------------------------------------------ R4
+def _conjuncts(t):
+    if isinstance(t, tuple) and t and t[0] == "bin" and t[1] in ("BitAnd", "And"):
+        return _conjuncts(t[2]) + _conjuncts(t[3])
+    return [t]
+
+
+def field_key_rule(ck, F, rid="C10.R19"):
+    """The macros pair the i-th value with the i-th key from `fields.iter()`; visitors and ValueSet compare keys with ==."""
+    FI = "tracing_core::field::"
+    b = F.body("<tracing_core::field::Field as core::cmp::PartialEq>::eq")
+    if ck.anchor(rid, "Field == Field", b):
+        bad, n = [], 0
+        for p in PathEval(b).run():
+            if p.end != "return" or p.ret is None or (p.ret[0] == "const" and p.ret[2] == 0):
+                continue
+            n += 1
+            held = [show(canon(c[0])) for c in p.conds if c[1] != 0] + [show(canon(x)) for x in _conjuncts(p.ret)]
+            neg = [show(canon(c[0])) for c in p.conds if c[1] == 0]
+            cs = any(h.startswith("eq(callsite(") or ("callsite" in h and " Eq " in h) for h in held) or any(h.startswith("ne(callsite(") for h in neg)
+            ix = any(h in ("(arg1.i Eq arg2.i)",) or (h.startswith("eq(") and ".i" in h) for h in held) or any(h == "(arg1.i Ne arg2.i)" for h in neg)
+            if not cs:
+                bad.append("keys compare equal on a path that has not compared their callsites (%s)" % held)
+            if not ix:
+                bad.append("keys compare equal on a path that has not compared their positions (%s)" % held)
+        key = "Field == Field compares callsite and position"
+        if bad or not n:
+            ck.bad(rid, key, where(b.raw["sp"]), "; ".join(sorted(set(bad))) or "never equal", fn=b.path)
+        else:
+            ck.ok(rid, key, fn=b.path)
+    b = F.body(FI + "FieldSet::iter")
+    if ck.anchor(rid, "FieldSet::iter", b):
+        r = [show(canon(p.ret)) for p in PathEval(b).run() if p.end == "return"]
+        key = "FieldSet::iter starts at position 0, ends at len, over the set's own names and callsite"
+        ok = len(r) == 1 and r[0].startswith("Iter{") and ("Range{0, len(arg1)}" in r[0] or "Range{0, len(arg1.names)}" in r[0]) and "arg1.names" in r[0] and "callsite" in r[0] and "arg2" not in r[0]
+        (ck.ok(rid, key, fn=b.path) if ok else ck.bad(rid, key, where(b.raw["sp"]), "builds %s" % r, fn=b.path))
+    b = F.body("<tracing_core::field::Iter as core::iter::traits::iterator::Iterator>::next")
+    if ck.anchor(rid, "field::Iter::next", b):
+        some = [p.ret for p in PathEval(b).run() if p.end == "return" and p.ret and show(p.ret).startswith("Option::Some")]
+        key = "field::Iter::next hands out the next position unchanged, with the iterator's names and callsite"
+        ok = bool(some)
+        why = "no Some path"
+        for r in some:
+            f = r[3][0] if r[0] == "agg" and r[3] else None
+            if not (f and f[0] == "agg" and len(f[3]) == 2):
+                ok, why = False, "yields %s" % show(r)[:100]
+                break
+            idx, fs = f[3]
+            def plain(t):       # the value taken from idxs.next() itself: only projections/`?` plumbing around the call
+                while isinstance(t, tuple) and t and t[0] in ("field", "downcast", "cast"):
+                    t = t[1] if t[0] != "cast" else t[2]
+                if isinstance(t, tuple) and t and t[0] == "call" and t[1].endswith("::branch"):
+                    t = t[2][0]
+                return isinstance(t, tuple) and t and t[0] == "call" and t[1].endswith("::next") and "idxs" in show(t)
+            if not plain(idx):
+                ok, why = False, "the position handed out is %s, not idxs.next()" % show(idx)[:80]
+            elif "arg1.fields.names" not in show(fs) or "callsite" not in show(fs):
+                ok, why = False, "the key's field set is %s" % show(fs)[:80]
+        (ck.ok(rid, key, fn=b.path) if ok else ck.bad(rid, key, where(b.raw["sp"]), why, fn=b.path))
+    b = F.body(FI + "FieldSet::field")
+    if ck.anchor(rid, "FieldSet::field", b):
+        key = "FieldSet::field yields the position whose name equals the one asked for"
+        cl = F.closures_of(b)
+        preds = [show(canon(p.ret)) for c in cl for p in PathEval(c).run() if p.end == "return" and p.ret and p.ret[0] != "agg"]
+        builds = [p.ret for c in cl for p in PathEval(c).run() if p.end == "return" and p.ret and p.ret[0] == "agg"]
+        r = [show(p.ret) for p in PathEval(b).run() if p.end == "return"]
+        ok = len(r) == 1 and "position(" in r[0] and "rposition(" not in r[0] and any(x.startswith("eq(") and "name" in x for x in preds) and \
+            len(builds) == 1 and len(builds[0][3]) == 2 and show(builds[0][3][0]) == "arg2" and "names" in show(builds[0][3][1])
+        (ck.ok(rid, key, fn=b.path) if ok else ck.bad(rid, key, where(b.raw["sp"]), "returns %s with predicates %s and builders %s" % (r, preds, [show(x)[:80] for x in builds]), fn=b.path))
+    b = F.body(FI + "Field::name")
+    if ck.anchor(rid, "Field::name", b):
+        key = "Field::name is the name at the key's own position"
+        uses_i = any("i" in proj_names(pl.get("p", [])) for _, _, _, pl in _iter_places(b))
+        r = [show(p.ret) for p in PathEval(b).run() if p.end == "return"]
+        if uses_i and len(r) == 1 and "names" in r[0]:
+            ck.ok(rid, key, fn=b.path)
+        else:
+            ck.bad(rid, key, where(b.raw["sp"]), "returns %s (reads self.i: %s)" % (r, uses_i), fn=b.path)
+
+
 def as_field_rule(ck, F, rid="C10.R18"):
     """Span::record / field / has_field resolve their key with AsField::as_field(metadata). ValueSet::record re-checks the
     callsite of each key it is given, so a key that as_field re-issues from the target's own field set passes that
@@ -417,10 +500,14 @@ def as_field_rule(ck, F, rid="C10.R18"):
                     bad.append("Some on a path that has not found the two callsites equal (conditions %s)" % c)
                 if r != "Option::Some{clone(arg1)}":
                     bad.append("hands back %s, not the key it was given" % r)
-            non = [r for c, r in rows if not r.startswith("Option::Some") and r != "Option::None{}"]
+            # (a reference's impl may hand over to the Field impl, which this rule decides on its own instance)
+            non = [r for c, r in rows if not r.startswith("Option::Some") and r != "Option::None{}" and not (st.startswith("&") and r == "as_field(arg1, arg2)" and
+                                                                                                             any((t["callee"].get("full") or t["callee"].get("path") or "").startswith("<tracing_core::field::Field as tracing::field::AsField>::as_field")
+                                                                                                                 for _, t in b.calls()))]
+            delegated = st.startswith("&") and not some and not non and any(r == "as_field(arg1, arg2)" for c, r in rows)
             if non:
                 bad.append("returns %s: a key re-issued from the span's field set passes ValueSet's own callsite check whatever callsite it came from" % non)
-            if not some and not non:
+            if not some and not non and not delegated:
                 bad.append("never accepts a key")
             ok, why = not bad, "; ".join(bad)
         if ok:
